@@ -329,6 +329,10 @@ func c09Strata() []*gast.Grammar {
 		// nested recovery operators sharing a label (fall-through) and sibling operators
 		mk(r("S", gast.Rec(gast.Rec(gast.S(gast.L("a"), gast.Ref("T")), act(gast.L("x"), 1), "L1"), act(gast.Dot(), 2), "L1", "L2")), r("T", gast.C(gast.L("b"), gast.Thr("L1")))),
 		mk(r("S", gast.Rec(gast.Ref("I"), act(gast.Dot(), 2), "L1")), r("I", gast.Rec(gast.S(gast.L("a"), gast.C(gast.L("b"), gast.Thr("L1"))), act(gast.L("x"), 1), "L1"))),
+		// a leaf rule referenced directly below a recovery operator and elsewhere in the same rule
+		mk(r("S", gast.S(gast.Ref("Item"), gast.Star(gast.S(gast.L(","), gast.Rec(gast.Ref("Item"), gast.Ref("Rc"), "L1"))), gast.NotE(gast.Dot()))),
+			r("Item", act(gast.Plus(gast.Cl(gast.Chars("ab"))), 1)), r("Rc", gast.Star(gast.Cl(&gast.ClassSpec{Chars: []rune(","), Inverted: true})))),
+		mk(r("S", gast.Star(gast.C(gast.Rec(gast.Ref("K"), gast.Ref("K2"), "L1"), gast.S(gast.L("!"), gast.Ref("K"), gast.Ref("K2"))))), r("K", gast.C(gast.L("a"), gast.Thr("L1"))), r("K2", gast.Cl(gast.Chars("xy")))),
 		// keyword idiom: literals with and without i next to each other, some without cased characters
 		mk(r("S", gast.S(gast.Li("select"), gast.L(" "), gast.Ref("N"), gast.L(" "), gast.Li("from"), gast.L(" "), gast.Ref("N"), gast.Opt(gast.S(gast.L(" "), gast.Li("order"), gast.Li(" by"), gast.L(" "), gast.Ref("N"))), gast.L(";"))),
 			r("N", gast.Plus(gast.Cl(gast.Chars("ab"))))),
